@@ -54,6 +54,10 @@ func (g *Gen) historyStep() {
 	case 6:
 		g.do(Step{Op: "Drop", Recv: f, Cols: bsList(g.subset(s.names, 2))})
 	case 7:
+		if g.rng.Intn(4) == 0 {
+			g.do(Step{Op: "Rolling", Recv: f, Dst: toBS(g.oneOf(append([]string{"R1"}, s.names...))), Src: toBS(g.oneOf(s.names)), A: g.rng.Intn(4), Fl: g.oneOf([]string{"", "start", "end", "center"})})
+			return
+		}
 		g.do(Step{Op: "Copy", Recv: f, Dst: toBS(g.oneOf(append([]string{"K1", "K2"}, s.names...))), Src: toBS(g.oneOf(s.names))})
 	case 8, 9:
 		g.do(Step{Op: "Apply", Recv: f, Instrs: g.randomInstrs(s, 3, false)})
